@@ -113,7 +113,7 @@ def evaluate(case, out):
                         ca = 0.5 if c.phantom else a.assorter.assort(c)
                     ref.append((1 - (ca - ma) / ub) / (2 - v / ub))
             expect_u[(cid, key)] = want_u
-            out.expect(abs(u - want_u) <= 1e-12 * want_u, "upper-bound", lambda: (cid, key, u, want_u, con.audit_type))
+            out.expect(abs(u - want_u) <= 1e-12 * abs(want_u), "upper-bound", lambda: (cid, key, u, want_u, con.audit_type))
             if not out.expect(len(d) == len(ref), "contributing-cards", lambda: (cid, key, len(d), len(ref), us, con.sample_threshold)):
                 continue
             out.expect(bool(np.all(np.abs(d - np.array(ref, dtype=float)) <= 1e-9)) if len(ref) else True, "data-values",
